@@ -29,6 +29,7 @@ func c18Legs(tier string, merge bool) []pairLeg {
 			add("A3x6@"+p.Name, Placed(Arr(3, "6"), p))
 		}
 		add("hostile", HostileDocs())
+		add("deep", Deep(true))
 		add("E2", EditStates(2, 1500))
 	} else {
 		add("U4", U(4))
@@ -38,6 +39,7 @@ func c18Legs(tier string, merge bool) []pairLeg {
 			add("A2x6@"+p.Name, Placed(Arr(2, "6"), p))
 		}
 		add("hostile", thin(HostileDocs(), 220))
+		add("deep", Deep(true))
 		add("E1", EditStates(1, 300))
 	}
 	return legs
